@@ -19,10 +19,13 @@ import (
 	"os"
 	"runtime"
 	"runtime/debug"
+	"strings"
 	"sync"
 	"sync/atomic"
 	"time"
 
+	"github.com/emmansun/gmsm/cbcmac"
+	gmcipher "github.com/emmansun/gmsm/cipher"
 	"github.com/emmansun/gmsm/ecdh"
 	"github.com/emmansun/gmsm/sm2"
 	"github.com/emmansun/gmsm/sm4"
@@ -44,6 +47,16 @@ type burstKind struct {
 	state func(obj any, seed uint64) []byte
 }
 
+// prepared calls of a burst kind (by name): prep is run by goroutine g BEFORE the barrier (drawing parameters and data
+// takes microseconds, which would spread the goroutines out again); run then takes the place of call and begins with
+// the library call.
+type preparedCall struct {
+	prep func(g int, seed uint64) any
+	run  func(obj any, arg any) []byte
+}
+
+var burstPrepared = map[string]preparedCall{}
+
 type ptPair struct {
 	p *vh.G1
 	q *vh.G2
@@ -62,8 +75,9 @@ type sm9EncPair struct {
 }
 
 type poolLeaf struct {
-	roots *smx509.CertPool
-	leaf  *smx509.Certificate
+	roots  *smx509.CertPool
+	leaf   *smx509.Certificate
+	forged *smx509.Certificate // names the root as its issuer, signed by another key
 	// a constrained PKI made for this object alone (names with a label of its own): nil in half of the trials
 	nc       *ncPKI
 	inters   *smx509.CertPool
@@ -294,6 +308,16 @@ var burstKinds = []burstKind{
 			o := obj.(*sm9EncPair)
 			switch g % 3 {
 			case 0:
+				if seed>>9&1 == 1 {
+					// the first use of the user key is refused: an encapsulation with a coordinate altered, or cut short
+					bad := flipped(o.c, len(o.c)-1-int(seed>>10&63), 1<<(seed>>16&7))
+					if seed>>19&1 == 1 {
+						bad = o.c[:len(o.c)-1]
+					}
+					if out := mustRefuse(o.user.UnwrapKey(o.uid, bad, 16)); bytes.HasPrefix(out, []byte("ERR:")) {
+						return out
+					}
+				}
 				k, err := o.user.UnwrapKey(o.uid, o.c, 16)
 				if err != nil || !bytes.Equal(k, o.k) {
 					return errf("user key does not unwrap the prepared key (%v)", err)
@@ -370,6 +394,8 @@ var burstKinds = []burstKind{
 			}
 			o.leaf, err = smx509.ParseCertificate(pki.leafDER)
 			must(err)
+			o.forged, err = smx509.ParseCertificate(pki.forgedDER)
+			must(err)
 			if r.Intn(2) == 1 {
 				// the pool also holds a technically constrained root whose names nobody in this process has seen before
 				o.nc = buildNCPKI(r, r.Uint64(), burstWhen, nil, false)
@@ -401,6 +427,10 @@ var burstKinds = []burstKind{
 				opts.Roots, opts.Intermediates = roots, o.inters
 				return cat([]byte(o.nc.leaves[li].name+" / "+shape+" -> "), verdict(o.ncLeaves[li].Verify(opts)))
 			}
+			if (g+int(seed>>7))%4 == 3 {
+				// the first use of the pool by this goroutine is the verification of a certificate that does not chain
+				return mustRefuseChain(o.forged.Verify(smx509.VerifyOptions{Roots: roots, CurrentTime: burstWhen}))
+			}
 			chains, err := o.leaf.Verify(smx509.VerifyOptions{Roots: roots, CurrentTime: burstWhen})
 			if err != nil {
 				return res(nil, err)
@@ -417,6 +447,213 @@ var burstKinds = []burstKind{
 		}},
 }
 
+// sm2Cts is an sm2 key and two ciphertexts for it made with a warm twin.
+type sm2Cts struct {
+	k                  *sm2.PrivateKey
+	msg, ct, msg2, ct2 []byte
+	foreign            []byte
+}
+
+func init() {
+	sm2Key := burstKinds[1].mk
+	burstKinds = append(burstKinds,
+		burstKind{"sm2 key pair (NewPrivateKey / GenerateKey / FromECPrivateKey / parsed SEC 1): first Decrypt - of a valid ciphertext or a REFUSED one (altered, foreign) - and Encrypt, messages up to 4000 bytes", 40,
+			func(r *mon.Rand) any {
+				o := &sm2Cts{k: sm2Key(r).(*sm2.PrivateKey)}
+				warm, err := sm2.NewPrivateKey(o.k.D.FillBytes(make([]byte, 32)))
+				must(err)
+				other, err := sm2.NewPrivateKey(scalar(r))
+				must(err)
+				seed := r.Uint64()
+				o.msg, o.msg2 = r.Bytes(r.Range(1, 120)), r.Bytes(r.Range(128, 4000))
+				o.ct, err = sm2.Encrypt(script(seed, "burst-pke-1"), &warm.PublicKey, o.msg, nil)
+				must(err)
+				o.ct2, err = sm2.Encrypt(script(seed, "burst-pke-2"), &warm.PublicKey, o.msg2, nil)
+				must(err)
+				o.foreign, err = sm2.Encrypt(script(seed, "burst-pke-3"), &other.PublicKey, o.msg2, nil)
+				must(err)
+				return o
+			},
+			func(obj any, g int, seed uint64) []byte {
+				o := obj.(*sm2Cts)
+				r := mon.NewRand(seed, "burst-pke", g)
+				var t steps
+				ct, other, msg := o.ct, o.ct2, o.msg
+				if r.Intn(2) == 1 {
+					ct, other, msg = o.ct2, o.ct, o.msg2
+				}
+				switch (g + int(seed>>5)) % 4 {
+				case 0:
+					what, bad := tamperPlain(ct, other, 32, r)
+					t.add("Decrypt, "+what, mustRefuse(o.k.Decrypt(nil, bad, nil)))
+				case 1:
+					t.add("Decrypt of a ciphertext for another key", mustRefuse(o.k.Decrypt(nil, o.foreign, nil)))
+					return t.result()
+				case 2:
+					return freshRefusal(&o.k.PublicKey, o.k, seed+uint64(g), "burst-pke-fresh")
+				}
+				out, err := o.k.Decrypt(nil, ct, nil)
+				if err == nil && !bytes.Equal(out, msg) {
+					t.add("Decrypt of the unaltered ciphertext", []byte("ERR:another plaintext"))
+				} else {
+					t.add("Decrypt of the unaltered ciphertext", valid(out, err))
+				}
+				return t.result()
+			},
+			func(obj any, seed uint64) []byte {
+				o := obj.(*sm2Cts)
+				out, err := o.k.Decrypt(nil, o.ct, nil)
+				return cat([]byte(fmt.Sprintf("%x/%x/%x/", o.k.D, o.k.X, o.k.Y)), valid(out, err))
+			}},
+		burstKind{name: modeBurst, trials: 100,
+			mk: func(r *mon.Rand) any {
+				b, err := sm4.NewCipher(r.Bytes(16))
+				must(err)
+				return b
+			},
+			state: func(obj any, seed uint64) []byte {
+				b := obj.(cipher.Block)
+				out := make([]byte, 16)
+				b.Encrypt(out, fixedHash[:16])
+				a, err := cipher.NewGCM(b)
+				if err != nil {
+					return res(nil, err)
+				}
+				return a.Seal(out, fixedHash[:12], bytes.Repeat(fixedHash, 5), bytes.Repeat(fixedHash, 5))
+			}})
+	burstPrepared[modeBurst] = preparedCall{
+		prep: func(g int, seed uint64) any {
+			// two trials of three: every goroutine calls the SAME constructor with the same parameters; the third: neighbours differ
+			sel := mon.NewRand(seed, "burst-mode")
+			if sel.Intn(3) == 0 {
+				sel = mon.NewRand(seed, "burst-mode", g)
+			}
+			return planMode(sel, mon.NewRand(seed, "burst-mode-data", g))
+		},
+		run: func(obj any, arg any) []byte { return arg.(*modePlan).use(obj.(cipher.Block)) },
+	}
+}
+
+const modeBurst = "sm4 block: FIRST mode construction over the new block - every goroutine the same constructor at the same instant (every GCM and CCM constructor, CBC, CTR, ECB, CFB, OFB, BC, HCTR, XTS, GB-XTS, MACs) - then Seal / refused Open / Open or Crypt of 128 bytes and more"
+
+// modePlan is everything a goroutine of the mode-construction burst decides before the barrier: which constructor (k,
+// and for AEADs the constructor function with its sizes) and the data, so that after the barrier its first
+// instruction is the constructor call.
+type modePlan struct {
+	k        int
+	name     string
+	aead     func(cipher.Block) (cipher.AEAD, error)
+	iv, hkey []byte
+	pt, ad   []byte
+	nonce    []byte // 32 bytes: the AEAD's nonce size is known after the construction
+	r        *mon.Rand
+	ct, back []byte
+}
+
+func planMode(sel, r *mon.Rand) *modePlan {
+	p := &modePlan{k: sel.Intn(18), r: r}
+	n := 16 * r.Range(8, 20)
+	p.iv, p.hkey, p.pt, p.nonce = r.Bytes(16), r.Bytes(16), r.Bytes(n), r.Bytes(32)
+	p.ct, p.back = make([]byte, n), make([]byte, n)
+	if p.k < 8 {
+		// half of the trials construct an AEAD: NewGCM itself in 3 of these 8, any of the seven GCM and CCM constructors in the others
+		p.name, p.aead = "NewGCM", cipher.NewGCM
+		if p.k >= 3 {
+			p.name, p.aead = aeadCtor(sel)
+		}
+		p.ad = r.Bytes([]int{0, r.Range(1, 40), r.Range(128, 200)}[r.Intn(3)])
+		p.pt = p.pt[:len(p.pt)-r.Intn(16)]
+	}
+	return p
+}
+
+// use constructs the mode over b - first thing - and uses it on 128 bytes and more; AEADs also refuse an altered message.
+func (p *modePlan) use(b cipher.Block) []byte {
+	iv, pt, ct, back := p.iv, p.pt, p.ct, p.back
+	inverts := func(name string) []byte {
+		if !bytes.Equal(back, pt) {
+			return errf("%s over the new block does not invert", name)
+		}
+		return ct
+	}
+	switch k := p.k; {
+	case k < 8:
+		a, err := p.aead(b)
+		if err != nil {
+			return res(nil, err)
+		}
+		nonce := p.nonce[:a.NonceSize()]
+		sealed := a.Seal(nil, nonce, pt, p.ad)
+		var t steps
+		openRefusals(a, nonce, sealed, p.ad, pt, p.r, &t, p.name, 1)
+		opened, err := a.Open(nil, nonce, sealed, p.ad)
+		if err != nil || !bytes.Equal(opened, pt) {
+			return errf("%s over the new block does not open its own output (%v)", p.name, err)
+		}
+		t.add("sealed", valid(sealed, nil))
+		return t.result()
+	case k == 8:
+		e := cipher.NewCBCEncrypter(b, iv)
+		e.CryptBlocks(ct, pt)
+		cipher.NewCBCDecrypter(b, iv).CryptBlocks(back, ct)
+		return inverts("CBC")
+	case k == 9:
+		e := cipher.NewCTR(b, iv)
+		e.XORKeyStream(ct, pt)
+		cipher.NewCTR(b, iv).XORKeyStream(back, ct)
+		return inverts("CTR")
+	case k == 10:
+		e := gmcipher.NewECBEncrypter(b)
+		e.CryptBlocks(ct, pt)
+		gmcipher.NewECBDecrypter(b).CryptBlocks(back, ct)
+		return inverts("ECB")
+	case k == 11:
+		e := cipher.NewCFBEncrypter(b, iv)
+		e.XORKeyStream(ct, pt)
+		cipher.NewCFBDecrypter(b, iv).XORKeyStream(back, ct)
+		return inverts("CFB")
+	case k == 12:
+		e := cipher.NewOFB(b, iv)
+		e.XORKeyStream(ct, pt)
+		cipher.NewOFB(b, iv).XORKeyStream(back, ct)
+		return inverts("OFB")
+	case k == 13:
+		e := gmcipher.NewBCEncrypter(b, iv)
+		e.CryptBlocks(ct, pt)
+		gmcipher.NewBCDecrypter(b, iv).CryptBlocks(back, ct)
+		return inverts("BC")
+	case k == 14:
+		h, err := gmcipher.NewHCTR(b, iv, p.hkey)
+		if err != nil {
+			return res(nil, err)
+		}
+		h.EncryptBytes(ct, pt)
+		h.DecryptBytes(back, ct)
+		return inverts("HCTR")
+	case k == 15 || k == 16:
+		// the XTS constructors take a function that makes the block: this one hands out the shared block for both keys
+		shared := func([]byte) (cipher.Block, error) { return b, nil }
+		var e, d cipher.BlockMode
+		var err error
+		if k == 15 {
+			if e, err = gmcipher.NewXTSEncrypter(shared, p.hkey, p.hkey, iv); err == nil {
+				d, err = gmcipher.NewXTSDecrypter(shared, p.hkey, p.hkey, iv)
+			}
+		} else {
+			if e, err = gmcipher.NewGBXTSEncrypter(shared, p.hkey, p.hkey, iv); err == nil {
+				d, err = gmcipher.NewGBXTSDecrypter(shared, p.hkey, p.hkey, iv)
+			}
+		}
+		if err != nil {
+			return res(nil, err)
+		}
+		e.CryptBlocks(ct, pt)
+		d.CryptBlocks(back, ct)
+		return inverts("XTS")
+	}
+	return cat(cbcmac.NewCBCMAC(b, 16).MAC(pt), cbcmac.NewCMAC(b, 16).MAC(pt), cbcmac.NewTRCBCMAC(b, 12).MAC(pt), cbcmac.NewCBCRMAC(b, 16).MAC(pt))
+}
+
 // scriptOf is a random source whose stream begins with d: a key generator that takes the first block in range as the
 // secret scalar produces the key d, fresh from generation.
 func scriptOf(d []byte, r *mon.Rand) *mon.Script {
@@ -427,7 +664,7 @@ func scriptOf(d []byte, r *mon.Rand) *mon.Script {
 
 var burstWhen = time.Date(2024, 6, 1, 0, 0, 0, 0, time.UTC)
 
-type burstPKIData struct{ rootDER, rootPEM, leafDER []byte }
+type burstPKIData struct{ rootDER, rootPEM, leafDER, forgedDER []byte }
 
 // burstPKI is a root and a leaf certificate (bytes only), made once per process.
 var burstPKI = sync.OnceValue(func() *burstPKIData {
@@ -449,25 +686,198 @@ var burstPKI = sync.OnceValue(func() *burstPKIData {
 	must(err)
 	p.leafDER, err = smx509.CreateCertificate(script(9, "burst-leaf"), lt, rt, &lk.PublicKey, rk)
 	must(err)
+	// a leaf that names the root as its issuer and carries the signature of another key: it does not chain
+	p.forgedDER, err = smx509.CreateCertificate(script(9, "burst-forged"), tmpl("c20 burst forged leaf", false, 3), rt, &lk.PublicKey, lk)
+	must(err)
 	p.rootPEM = pem.EncodeToMemory(&pem.Block{Type: "CERTIFICATE", Bytes: p.rootDER})
 	return p
 })
 
-// oneBurst runs the trials of one object kind.
-func oneBurst(c *mon.Case, slow bool) {
-	// kind 0 (projective bn256 points through the verif hook) is internal, not part of the verdict path: see c20.go
-	kinds := burstKinds[1:]
-	if os.Getenv("VERIF_C20_INTERNAL_POINTS") == "1" {
-		kinds = burstKinds
-	}
+// pickBurst draws the object kind of a burst case of c20.rounds.
+func pickBurst(c *mon.Case, slow, first bool) (burstKind, int) {
+	kinds := verdictBurstKinds()
 	kind := kinds[c.R.Intn(len(kinds))]
+	if first {
+		// the first burst of every process: first mode construction over a new block (the cheapest trials and the
+		// shortest windows: a table or a schedule built once per block)
+		kind = burstKinds[len(burstKinds)-1]
+	}
 	trials := kind.trials
 	if slow {
 		trials = (trials + 7) / 8
+	} else if !sm4HasAESNI() {
+		// the software SM4 and GCM under the race detector: a tenth of the speed
+		trials = (trials + 1) / 2
 	}
+	return kind, trials
+}
+
+// sm4HasAESNI: the SM4 of this process is one of the assembly implementations (the block type says so).
+var sm4HasAESNI = sync.OnceValue(func() bool {
+	b, err := sm4.NewCipher(make([]byte, 16))
+	return err == nil && !strings.HasSuffix(fmt.Sprintf("%T", b), ".sm4Cipher")
+})
+
+// verdictBurstKinds: kind 0 (projective bn256 points through the verif hook) is internal, not part of the verdict path: see c20.go
+func verdictBurstKinds() []burstKind {
+	if os.Getenv("VERIF_C20_INTERNAL_POINTS") == "1" {
+		return burstKinds
+	}
+	return burstKinds[1:]
+}
+
+// burstTrial is what the coordinator hands the K goroutines of a burst for one trial.
+type burstTrial struct {
+	obj     any
+	seed    uint64
+	arrived atomic.Int32 // goroutines in the barrier
+	stagger []int        // turns goroutine g spins after the barrier before its call
+	got     [][]byte
+	pan     []string
+	spun    []uint32 // where the spinning of goroutine g ended (keeps the loop alive)
+}
+
+// spinTurns is the number of turns a goroutine spins in the barrier before it starts yielding.
+var spinTurns = map[bool]int{false: 3000, true: 100}[raceBuild]
+
+// backoff is turn i of a wait in the barrier: a bare spin at first, then yields; who is still waiting after 200 yields
+// waits for a goroutine that has lost its processor to another process, and stops burning its own (nothing is decided
+// by this time).
+func backoff(i int) {
+	if i > spinTurns+200 {
+		time.Sleep(50 * time.Microsecond)
+	} else if i > spinTurns {
+		runtime.Gosched()
+	}
+}
+
+// burstCrew are the K goroutines of a burst case. They live as long as the case: a goroutine made for one trial starts
+// on a minimal stack and grows it inside its first library call, which takes microseconds and spreads the first calls
+// out. A trial reaches them over a channel each - or, for the HOT crews (kinds whose trials cost microseconds, in
+// builds without the race detector), through a pointer and a counter that they poll without ever being parked: waking
+// a parked goroutine goes through the operating system, which on a busy machine takes anything up to milliseconds and
+// leaves the goroutines that came first nothing but to yield and nap, after which they do not leave the barrier
+// together any more. What each goroutine does per trial: draw its parameters and data (prep, for the kinds that have
+// one), enter the barrier - a spin on the trial's counter, which all K leave within tens of nanoseconds of each other
+// -, spin for the number of turns drawn for it in this trial (so that the offsets between the first calls sweep the range
+// from nothing to a microsecond: a window that opens some nanoseconds into the first call is missed by calls that start
+// at the very same instant), then make its call.
+type burstCrew struct {
+	K     int
+	kind  *burstKind
+	pc    preparedCall
+	hot   bool
+	fin   chan int
+	ins   []chan *burstTrial         // parked crews
+	cur   atomic.Pointer[burstTrial] // hot crews: the trial ...
+	epoch atomic.Int64               // ... and its number
+}
+
+func newCrew(K int, kind *burstKind, hot bool) *burstCrew {
+	w := &burstCrew{K: K, kind: kind, pc: burstPrepared[kind.name], hot: hot, fin: make(chan int, K)}
+	for g := 0; g < K; g++ {
+		if hot {
+			go w.pollTrials(g)
+		} else {
+			w.ins = append(w.ins, make(chan *burstTrial, 1))
+			go w.receiveTrials(g, w.ins[g])
+		}
+	}
+	return w
+}
+
+// start hands the trial to the crew; the K completion messages arrive on w.fin.
+func (w *burstCrew) start(tr *burstTrial) {
+	if w.hot {
+		w.cur.Store(tr)
+		w.epoch.Add(1)
+		return
+	}
+	for _, in := range w.ins {
+		in <- tr
+	}
+}
+
+// dismiss ends the goroutines of the crew that are not inside a call.
+func (w *burstCrew) dismiss() {
+	if w.hot {
+		w.cur.Store(nil)
+		w.epoch.Add(1)
+		return
+	}
+	for _, in := range w.ins {
+		close(in)
+	}
+}
+
+func (w *burstCrew) receiveTrials(g int, in <-chan *burstTrial) {
+	for tr := range in {
+		w.trial(g, tr)
+	}
+}
+
+func (w *burstCrew) pollTrials(g int) {
+	for e := int64(1); ; e++ {
+		for i := 0; w.epoch.Load() < e; i++ {
+			if i > 2000 {
+				runtime.Gosched() // stays runnable: never parked
+			}
+		}
+		tr := w.cur.Load()
+		if tr == nil {
+			return
+		}
+		w.trial(g, tr)
+	}
+}
+
+func (w *burstCrew) trial(g int, tr *burstTrial) {
+	defer func() { w.fin <- g }()
+	defer func() {
+		if r := recover(); r != nil {
+			tr.pan[g] = fmt.Sprintf("%v\n%s", r, debug.Stack())
+		}
+	}()
+	var arg any
+	if w.pc.prep != nil {
+		arg = w.pc.prep(g, tr.seed)
+	}
+	tr.arrived.Add(1)
+	for i := 0; tr.arrived.Load() < int32(w.K); i++ {
+		if !w.hot {
+			backoff(i)
+		} else if i > 5000 {
+			runtime.Gosched()
+		}
+	}
+	x := uint32(g)
+	for i := 0; i < tr.stagger[g]; i++ {
+		x = x*1664525 + 1013904223 // about a nanosecond a turn, with and without the race detector
+	}
+	tr.spun[g] = x
+	if w.pc.prep != nil {
+		tr.got[g] = w.pc.run(tr.obj, arg)
+	} else {
+		tr.got[g] = w.kind.call(tr.obj, g, tr.seed)
+	}
+}
+
+// oneBurst runs the trials of one object kind.
+func oneBurst(c *mon.Case, kind burstKind, trials int) {
+	pc := burstPrepared[kind.name]
 	K := min(4, max(2, runtime.GOMAXPROCS(0)))
+	// hot crews: without the race detector (under it every poll of a shared counter is serialised by the detector), with
+	// a processor to spare for the coordinator, for the kind whose trials cost microseconds (first mode construction): K
+	// processors are kept busy for the whole case
+	hot := !raceBuild && runtime.GOMAXPROCS(0) > K && kind.trials >= 100
+	if hot && c.R.Intn(2) == 1 {
+		K = 3
+	}
 	c.Class("burst/%s/K%d", kind.name, K)
-	c.Detail("burst", fmt.Sprintf("%s, %d trials, %d goroutines, GOMAXPROCS %d", kind.name, trials, K, runtime.GOMAXPROCS(0)))
+	c.Detail("burst", fmt.Sprintf("%s, %d trials, %d goroutines (polling: %v), GOMAXPROCS %d", kind.name, trials, K, hot, runtime.GOMAXPROCS(0)))
+	crew := newCrew(K, &kind, hot)
+	fin := crew.fin
+	defer crew.dismiss()
 	for t := 0; t < trials; t++ {
 		objSeed, callSeed := c.R.Uint64(), c.R.Uint64()
 		var shared, twin any
@@ -478,37 +888,41 @@ func oneBurst(c *mon.Case, slow bool) {
 			c.Fail("panic", "burst %s trial %d: building the object: %v\n%s", kind.name, t, p.Value, p.Stack)
 			return
 		}
-		got := make([][]byte, K)
-		pan := make([]string, K)
-		finished := make([]bool, K)
-		fin := make(chan int, K)
-		var ready atomic.Int32
-		for g := 0; g < K; g++ {
-			go func(g int) {
-				defer func() { fin <- g }()
-				defer func() {
-					if r := recover(); r != nil {
-						pan[g] = fmt.Sprintf("%v\n%s", r, debug.Stack())
-					}
-				}()
-				// spinning barrier: all K goroutines leave it within a fraction of a microsecond of each other
-				ready.Add(1)
-				for ready.Load() < int32(K) {
-					runtime.Gosched()
-				}
-				got[g] = kind.call(shared, g, callSeed)
-			}(g)
+		tr := &burstTrial{obj: shared, seed: callSeed, stagger: make([]int, K), got: make([][]byte, K), pan: make([]string, K), spun: make([]uint32, K)}
+		// one goroutine in two starts at once, the others after 0 .. 2^e - 1 turns, e drawn from 1 .. 10
+		for g := range tr.stagger {
+			if c.R.Intn(2) == 1 {
+				tr.stagger[g] = c.R.Intn(1 << uint(c.R.Range(1, 10)))
+			}
 		}
-		allDone := settle(fin, finished, suspectAfter)
+		got, pan := tr.got, tr.pan
+		finished := make([]bool, K)
 		want := make([][]byte, K)
 		var wantState []byte
-		if p := mon.Try(func() {
-			for g := 0; g < K; g++ {
-				want[g] = kind.call(twin, g, callSeed)
+		// the same calls one after another on the twin: before the concurrent calls in every other trial, after them in
+		// the others (what either leaves behind in the package is then part of the other's history)
+		sequential := func() bool {
+			if p := mon.Try(func() {
+				for g := 0; g < K; g++ {
+					if pc.prep != nil {
+						want[g] = pc.run(twin, pc.prep(g, callSeed))
+					} else {
+						want[g] = kind.call(twin, g, callSeed)
+					}
+				}
+				wantState = kind.state(twin, callSeed)
+			}); p != nil {
+				c.Fail("panic", "burst %s trial %d: sequential calls on the twin: %v\n%s", kind.name, t, p.Value, p.Stack)
+				return false
 			}
-			wantState = kind.state(twin, callSeed)
-		}); p != nil {
-			c.Fail("panic", "burst %s trial %d: sequential calls on the twin: %v\n%s", kind.name, t, p.Value, p.Stack)
+			return true
+		}
+		if t%2 == 1 && !sequential() {
+			return
+		}
+		crew.start(tr)
+		allDone := settle(fin, finished, suspectAfter)
+		if t%2 == 0 && !sequential() {
 			return
 		}
 		if !allDone {
@@ -526,7 +940,7 @@ func oneBurst(c *mon.Case, slow bool) {
 				if bytes.HasPrefix(want[g], []byte("ERR:")) {
 					c.Fail("reject", "burst %s trial %d: call %d failed on the twin, sequentially: %s", kind.name, t, g, want[g])
 				} else if !bytes.Equal(got[g], want[g]) {
-					c.Fail("mismatch", "burst %s trial %d: goroutine %d: concurrent result %x differs from the sequential result on a twin %x", kind.name, t, g, got[g], want[g])
+					c.Fail("mismatch", "burst %s trial %d: goroutine %d: concurrent result %s differs from the sequential result on a twin %s", kind.name, t, g, show(got[g]), show(want[g]))
 				}
 			}
 		}
